@@ -192,9 +192,38 @@ impl Sess {
         let mut id = [0u8; 20];
         id.copy_from_slice(&self.plan.id);
         let mut pstr = crate::codec::PSTR.to_vec();
+        // how a wrong value deviates from the right one varies: one bit, first/last byte, two
+        // unequal bytes transposed, the same bit flipped at two places (differences that cancel
+        // under xor or sum), everything
+        fn deviate(v: &mut [u8; 20], r: &mut world::rng::Rng64) {
+            match r.below(6) {
+                0 => v[r.usize_below(20)] ^= 1 << r.below(8),
+                1 => v[0] = v[0].wrapping_add(1),
+                2 => v[19] ^= 0x01,
+                3 => {
+                    let i = r.usize_below(20);
+                    let j = (0..20).map(|d| (i + 1 + d) % 20).find(|j| v[*j] != v[i]);
+                    match j {
+                        Some(j) => v.swap(i, j),
+                        None => v[i] ^= 0x10,
+                    }
+                }
+                4 => {
+                    let (i, b) = (r.usize_below(19), 1u8 << r.below(8));
+                    v[i] ^= b;
+                    v[i + 1] ^= b;
+                }
+                _ => {
+                    for x in v.iter_mut() {
+                        *x = !*x;
+                    }
+                }
+            }
+        }
         match self.plan.hs {
-            Hs::WrongHash => ih[7] ^= 0x40,
-            Hs::WrongId => id[19] ^= 0x01,
+            // (a stream of its own: the same deviation on every connection of this peer)
+            Hs::WrongHash => deviate(&mut ih, &mut world::rng::Rng64::sub(world::rng::hash_name(&self.plan.name) ^ self.sh.seed, "hs-deviation")),
+            Hs::WrongId => deviate(&mut id, &mut world::rng::Rng64::sub(world::rng::hash_name(&self.plan.name) ^ self.sh.seed, "hs-deviation")),
             Hs::WrongPstr => pstr[18] = b'X',
             _ => {}
         }
